@@ -71,6 +71,10 @@ def main(tier):
         pc0 = 0x2000
         cases.append({"id": i, "files": {"main.asm": src}, "pc": pc0, "want": ["segments", "symbols", "vice", "passes"], "max_passes": 60})
         progs[i] = (prog, src, pc0)
+    only = os.environ.get("C02_ONLY")          # diagnosis: restrict to some case ids (the generator stream stays the same)
+    if only:
+        keep = {int(x) for x in only.split(",")}
+        cases = [c for c in cases if c["id"] in keep]
     obs, p = V.run_harness("asmdrive", cases, "C02-drive")
     if len(obs) != len(cases):
         raise V.ToolError("asmdrive produced %d of %d observations: %s" % (len(obs), len(cases), p.stderr[-2000:]))
